@@ -4,6 +4,7 @@
   the implementation must produce. Core-only imports (links as a lean_exe).
 -/
 import SimVerif.Drv.Kernel
+import SimVerif.Drv.AllHooks
 import SimVerif.Props.C02
 import SimVerif.Drv.Http
 import SimVerif.Drv.Pcap
@@ -19,7 +20,7 @@ def main (args : List String) : IO UInt32 := do
   | ["kernel", file] =>
     let scns := parseBatch (← readLines file)
     for s in scns do
-      for l in kernelTrace repaired s do IO.println l
+      for l in kernelTrace repaired s allHooks do IO.println l
     return 0
   | ["kernel-asis", file] =>
     let scns := parseBatch (← readLines file)
